@@ -204,7 +204,7 @@ fn report(s: &Session, ncmd: usize, res: &Result<Result<Value, String>, String>)
     };
     let tasks = probe::task_states_json(s.pid);
     let threads = match (&s.dbg, kind.as_str()) {
-        (Some(d), "breakpoint" | "signal" | "watchpoint") => belief(d),
+        (Some(d), "breakpoint" | "signal" | "watchpoint" | "step") => belief(d),
         _ => Value::Null,
     };
     // second look at /proc a little later: "stays stopped until the user resumes"
@@ -252,7 +252,7 @@ fn set_breakpoints(d: &mut Debugger, src: &str, lines: &Value, sites: i64) -> Re
     Ok(addrs)
 }
 
-fn one_command(s: &mut Session, first: bool) -> Result<Result<Value, String>, String> {
+fn one_command(s: &mut Session, first: bool, name: &str) -> Result<Result<Value, String>, String> {
     let fresh = s.fresh;
     let rec = s.rec.clone();
     let d = s.dbg.as_mut().unwrap();
@@ -268,6 +268,22 @@ fn one_command(s: &mut Session, first: bool) -> Result<Result<Value, String>, St
                     json!({"kind": "exit", "code": h["code"]})
                 } else {
                     json!({"kind": "start"})
+                }
+            })
+        } else if name == "next" {
+            // `next` (step over): what it reports comes through the hook interface
+            rec.take();
+            d.step_over().map_err(|e| e.to_string()).map(|_| {
+                let hooks = rec.take();
+                let tid = d.ecx().pid_on_focus().as_raw();
+                let pc = u64::from(d.ecx().location().pc);
+                let said: Vec<String> = hooks.iter().map(|h| h["hook"].as_str().unwrap_or("?").to_string()).collect();
+                if said.iter().any(|h| h == "exit") {
+                    json!({"kind": "exit", "code": 0})
+                } else if said.iter().any(|h| h == "breakpoint") {
+                    json!({"kind": "breakpoint", "tid": tid, "pc": pc, "during": "next"})
+                } else {
+                    json!({"kind": "step", "tid": tid, "pc": pc, "hooks": said})
                 }
             })
         } else {
@@ -436,7 +452,7 @@ fn run_free(puppet: &str, src: &str, lines: &Value, job: &Value, kept: &mut Opti
         interpose::push(json!({"ev": "cmd", "cmd": ncmd, "name": if ncmd == 1 { "start" } else { "continue" }, "tasks": tasks}));
         let tc = Instant::now();
         arm_watchdog(job, s.pid, ncmd);
-        let res = one_command(&mut s, ncmd == 1);
+        let res = one_command(&mut s, ncmd == 1, "continue");
         disarm_watchdog();
         let t1 = tc.elapsed();
         let rep = report(&s, ncmd, &res);
@@ -700,10 +716,11 @@ fn run_steer(puppet: &str, src: &str, lines: &Value, job: &Value, kept: &mut Opt
             g.in_wait_any = false;
         }
         let tasks = if ncmd > 1 { probe::task_states_json(s.pid) } else { Value::Null };
-        interpose::push(json!({"ev": "cmd", "cmd": ncmd, "name": if ncmd == 1 { "start" } else { "continue" }, "tasks": tasks}));
+        let name = if ncmd == 1 { "start".to_string() } else { job["cmds"][ncmd - 2].as_str().unwrap_or("continue").to_string() };
+        interpose::push(json!({"ev": "cmd", "cmd": ncmd, "name": name, "tasks": tasks}));
         let tc = Instant::now();
         arm_watchdog(job, s.pid, ncmd);
-        let res = one_command(&mut s, ncmd == 1);
+        let res = one_command(&mut s, ncmd == 1, &name);
         disarm_watchdog();
         if std::env::var("C09_TIMING").is_ok() {
             eprintln!("[c09] cmd {ncmd} {:?}", tc.elapsed());
@@ -713,7 +730,7 @@ fn run_steer(puppet: &str, src: &str, lines: &Value, job: &Value, kept: &mut Opt
         last = rep["kind"].as_str().unwrap_or("").to_string();
         interpose::push(rep);
         match last.as_str() {
-            "breakpoint" | "signal" => {}
+            "breakpoint" | "signal" | "step" => {}
             "exit" => {
                 ok_exit = true;
                 break;
